@@ -84,7 +84,7 @@ def preagg_patch(gh):
     return st
 
 
-def ghost(G, n_inputs, has_obs=None, clim=None, obs_range=False, other=False, prob=False, ensemble=True, agg=None):
+def ghost(G, n_inputs, has_obs=None, clim=None, obs_range=False, other=False, prob=False, ensemble=True, agg=None, min_members=1):
     """a Data object in the state Data.__init__ leaves it in (its index lists satisfy the postcondition of
     _get_common_indices, decided separately), with symbolic contents; nothing cached yet"""
     N = n_inputs + (1 if clim else 0)
@@ -111,7 +111,7 @@ def ghost(G, n_inputs, has_obs=None, clim=None, obs_range=False, other=False, pr
         gh.Is.append(G.array("Is%d" % i, (CS,), dtype="int", bound_axis=Sx))
         pr = None
         if prob:
-            E = G.axis("e%d" % i, min_size=1)
+            E = G.axis("e%d" % i, min_size=min_members)      # Ensemble(m) requires a file with more than m members
             K = G.axis("k%d" % i, size=len(STORED_THRESHOLDS))
             Q = G.axis("q%d" % i, size=len(STORED_QUANTILES))
             pr = {"pit": G.array("pit%d" % i, (T, L, Sx), kinds=(FIN, NAN)),
@@ -181,8 +181,37 @@ def ghost(G, n_inputs, has_obs=None, clim=None, obs_range=False, other=False, pr
         gh.axis_vals[nm], gh.axis_uniq[nm] = vals, uniq
     d.axis_cache[verif.axis.Leadtime()] = d.axis_cache[verif.axis.Leadtimeday()]      # any lead-time axis: same mechanism
     d.axis_cache_unique[verif.axis.Leadtime()] = d.axis_cache_unique[verif.axis.Leadtimeday()]
+    _complete_from_constructor(d)
     gh.data = d
     return gh
+
+
+_TEMPLATE = {}
+
+
+def _complete_from_constructor(d):
+    """attributes that the real constructor sets but this ghost state does not know about (added by a later version of the
+    code, e.g. a scratch buffer initialised to None) are taken, as deep copies, from an object built by the REAL Data.__init__ on a
+    1x1x1 dataset: the ghost must not fail merely because the constructor grew an attribute"""
+    import copy
+    import verif.location
+    key = id(verif.data.Data.__init__)
+    if key not in _TEMPLATE:
+        try:
+            si = StubInput("tmpl", _np.zeros([1, 1, 1]), _np.zeros([1, 1, 1]))
+            si.times, si.leadtimes = _np.array([0.0]), _np.array([0.0])
+            si.locations = [verif.location.Location(0, 0, 0, 0)]
+            import contextlib, io
+            with contextlib.redirect_stdout(io.StringIO()):
+                _TEMPLATE[key] = dict(verif.data.Data([si]).__dict__)
+        except BaseException:
+            _TEMPLATE[key] = {}
+    for k, v in _TEMPLATE[key].items():
+        if k not in d.__dict__:
+            try:
+                setattr(d, k, copy.deepcopy(v))
+            except Exception:
+                pass
 
 
 FIELDS = {"obs": verif.field.Obs, "fcst": verif.field.Fcst, "aux": lambda: verif.field.Other("aux"),
@@ -190,7 +219,8 @@ FIELDS = {"obs": verif.field.Obs, "fcst": verif.field.Fcst, "aux": lambda: verif
           "thr0.5": lambda: verif.field.Threshold(0.5), "thr2": lambda: verif.field.Threshold(2.0), "thr1": lambda: verif.field.Threshold(1.0),
           "q0.1": lambda: verif.field.Quantile(0.1), "q0.5": lambda: verif.field.Quantile(0.5),
           "thr-1": lambda: verif.field.Threshold(-1.0), "thr-2": lambda: verif.field.Threshold(-2.0),
-          "ens0": lambda: verif.field.Ensemble(0)}
+          "q0.9": lambda: verif.field.Quantile(0.9), "q0.25": lambda: verif.field.Quantile(0.25),
+          "ens0": lambda: verif.field.Ensemble(0), "ens1": lambda: verif.field.Ensemble(1)}
 
 
 # ----------------------------------------------------------------------------------------------
@@ -402,8 +432,10 @@ def _one_request(n_inputs, j, fields, axis_kind, has_obs=None, clim=None, obs_ra
     other = "aux" in fields
     prob = any(f not in ("obs", "fcst", "aux") for f in fields)
 
+    min_members = 1 + max([int(f[3:]) for f in fields if f.startswith("ens")] or [0])
+
     def setup(G):
-        gh = ghost(G, n_inputs, has_obs=has_obs, clim=clim, obs_range=obs_range, other=other, prob=prob, agg=agg)
+        gh = ghost(G, n_inputs, has_obs=has_obs, clim=clim, obs_range=obs_range, other=other, prob=prob, agg=agg, min_members=min_members)
         gh.k = _slice_index(G, gh, axis_kind)
         return gh
 
@@ -429,7 +461,7 @@ def _reg_request(name, props, *a, **kw):
                                             "ghost dataset: Data's index lists satisfy the contract of _get_common_indices (decided by its own obligations)"]))
 
 
-_CORE = ("C01", "C02", "C04", "C18")
+_CORE = ("C01", "C02", "C04", "C18", "C05")       # C05: an empty slice reaches the metrics as the one-NaN sentinel
 for _n in (1, 2, 3):
     for _j in range(_n):
         if _n == 3 and _j == 1:
@@ -455,7 +487,7 @@ _reg_request("N=1+clim,input=0,[aux],axis=time,clim=subtract", ("C14",), 1, 0, (
 _reg_request("N=1+clim,input=0,[obs,fcst],axis=time,clim=subtract,obsrange", ("C14", "C03"), 1, 0, ("obs", "fcst"), "time", clim="subtract", obs_range=True)
 
 
-_PROB = ("C08", "C01", "C04")
+_PROB = ("C08", "C01", "C04", "C07")
 _reg_request("N=1,input=0,[obs,thr0.5],axis=time(stored-cdf-column)", _PROB, 1, 0, ("obs", "thr0.5"), "time")
 _reg_request("N=2,input=1,[obs,thr0.5,thr2],axis=no(stored-cdf-columns)", _PROB, 2, 1, ("obs", "thr0.5", "thr2"), "no")
 _reg_request("N=1,input=0,[obs,thr1],axis=time(probability-from-ensemble)", _PROB, 1, 0, ("obs", "thr1"), "time")
@@ -465,6 +497,10 @@ _reg_request("N=1,input=0,[obs,q0.5],axis=time(quantile-from-ensemble)", _PROB, 
 _reg_request("N=2,input=1,[q0.1,q0.5,fcst,obs],axis=no", _PROB, 2, 1, ("q0.1", "q0.5", "fcst", "obs"), "no")
 _reg_request("N=2,input=0,pit-single,axis=time", _PROB, 2, 0, ("pit",), "time", single=True)
 _reg_request("N=1,input=0,[ens0,obs],axis=time(ensemble-member)", _PROB, 1, 0, ("ens0", "obs"), "time")
+_reg_request("N=1,input=0,[ens1,ens0],axis=time(two-ensemble-members)", _PROB, 1, 0, ("ens1", "ens0"), "time")
+_reg_request("N=1,input=0,[q0.9,q0.1],axis=time(both-stored-quantile-columns)", _PROB, 1, 0, ("q0.9", "q0.1"), "time")
+# (a level at which NumPy's interpolation methods differ; at 0.5 they all give the median)
+_reg_request("N=1,input=0,[obs,q0.25],axis=time(quantile-from-ensemble,off-centre-level)", _PROB, 1, 0, ("obs", "q0.25"), "time")
 
 
 _AGG = ("C15", "C08")
@@ -594,6 +630,68 @@ for _a, _b in (("C", "A"), ("A", "C"), ("D", "A")):
     s, c, p = _pair(_a, _b, obs_range=True)
     register(Obligation("verif.data.Data.get_scores#INV:history-with-obsrange[%s,%s]" % (_a, _b), ("C18", "C03"), s, c, p, modules=MOD,
                         functions=["verif.data.Data.get_scores", "verif.data.Data._get_score"]))
+
+
+# ----------------------------------------------------------------------------------------------
+# C18 / C14: results do not depend on OTHER datasets built earlier in the same process (no state shared between Data objects)
+# ----------------------------------------------------------------------------------------------
+def _two_datasets():
+    import verif.location
+
+    def mk(name, arr, T, L, Sn):
+        si = StubInput(name, arr["obs"], arr["fcst"])
+        si.times = _np.array([86400.0 * i for i in range(T)])
+        si.leadtimes = _np.array([6.0 * i for i in range(L)])
+        si.locations = [verif.location.Location(float(i), 0.0, 0.0, 0.0) for i in range(Sn)]
+        return si
+
+    def body():
+        import random
+        rnd = random.Random(int(os.environ.get("VERIF_SEED", "0")) + 3)
+        cases = 0
+        for rep in range(12):
+            shapes = [(2, 2, 2), rnd.choice([(2, 2, 2), (3, 1, 2), (1, 2, 3)])]
+            for clim_type in ("subtract", "divide", None):
+                datasets = []
+                for T, L, Sn in shapes:
+                    def arr():
+                        a = _np.array([rnd.choice([1.0, 2.0, 4.0, -3.0, 0.5, float("nan")]) for _ in range(T * L * Sn)]).reshape(T, L, Sn)
+                        return a
+                    f = {"obs": arr(), "fcst": arr()}
+                    # (the climatology file carries the same observations: the tool's assumption A5)
+                    c = {"obs": f["obs"].copy(), "fcst": _np.where(_np.isnan(arr()), _np.nan, rnd.choice([1.0, 2.0, 8.0]))}
+                    datasets.append((f, c, (T, L, Sn)))
+                results = []
+                for n, (f, c, (T, L, Sn)) in enumerate(datasets):
+                    with contextlib.redirect_stdout(io.StringIO()):
+                        kw = {"clim": mk("clim%d" % n, c, T, L, Sn), "clim_type": clim_type} if clim_type else {}
+                        d = verif.data.Data([mk("in%d" % n, f, T, L, Sn)], **kw)
+                        for axis, k in ((verif.axis.No(), 0), (verif.axis.Time(), 0), (verif.axis.Leadtime(), 0), (verif.axis.Location(), 1)):
+                            o, fc = d.get_scores([verif.field.Obs(), verif.field.Fcst()], 0, axis, k)
+                            sl = {"No": (slice(None),) * 3, "Time": (k,), "Leadtime": (slice(None), k), "Location": (slice(None), slice(None), k)}[axis.name()]
+                            O, F = f["obs"][sl].flatten(), f["fcst"][sl].flatten()
+                            C = c["fcst"][sl].flatten() if clim_type else None
+                            if clim_type == "subtract":
+                                O, F = O - C, F - C
+                            elif clim_type == "divide":
+                                with _np.errstate(all="ignore"):
+                                    O, F = O / C, F / C
+                            ok = _np.isfinite(O) & _np.isfinite(F)
+                            wo, wf = (O[ok], F[ok]) if ok.any() else (_np.array([_np.nan]), _np.array([_np.nan]))
+                            cases += 1
+                            same = lambda a, b: a.shape == b.shape and bool(_np.all((a == b) | (_np.isnan(a) & _np.isnan(b))))
+                            if not (same(_np.asarray(o, float), wo) and same(_np.asarray(fc, float), wf)):
+                                return cases, {"dataset-number-in-this-process": n + 1, "climatology": clim_type, "axis": axis.name(), "slice": k,
+                                               "got-obs": _np.asarray(o).tolist(), "want-obs": wo.tolist(), "got-fcst": _np.asarray(fc).tolist(), "want-fcst": wf.tolist()}
+        return cases, None
+    return body
+
+
+from .axis import _enumerated as _enum_two
+import contextlib, io
+_enum_two("verif.data.Data.get_scores#INV:a-dataset-built-earlier-in-the-same-process-does-not-change-the-results", ("C18", "C14"),
+          "12 seeded pairs of datasets (2x2x2 and another shape) x {no climatology, -c, -C}: the second dataset's obs/fcst for four slices against an "
+          "independent computation from its own arrays", _two_datasets(), ["verif.data.Data.__init__", "verif.data.Data.get_scores"])
 
 
 # ----------------------------------------------------------------------------------------------
@@ -867,6 +965,25 @@ def _init_spec(inp):
     return sorted(ts), sorted(ls), sorted(keep), sorted(ts_before_dates)
 
 
+def _axis_caches_ok(d):
+    """C11: the per-time / per-lead-time bucket arrays that _apply_axis slices with are those of the FINAL verified times and lead
+    times (after -d / -tod), one entry per time / lead time, and their distinct values"""
+    try:
+        for ax in verif.axis.get_time_axes():
+            want = _np.asarray(ax.compute_from_times(_np.asarray(d.times)), float)
+            got = _np.asarray(d.axis_cache[ax], float)
+            if got.shape != want.shape or not _np.array_equal(got, want) or not _np.array_equal(_np.asarray(d.axis_cache_unique[ax], float), _np.unique(want)):
+                return False
+        for ax in verif.axis.get_leadtime_axes():
+            want = _np.asarray(ax.compute_from_leadtimes(_np.asarray(d.leadtimes)), float)
+            got = _np.asarray(d.axis_cache[ax], float)
+            if got.shape != want.shape or not _np.array_equal(got, want) or not _np.array_equal(_np.asarray(d.axis_cache_unique[ax], float), _np.unique(want)):
+                return False
+    except (KeyError, AttributeError):
+        return False
+    return True
+
+
 def _data_init(n_inputs):
     import verif.location
 
@@ -918,11 +1035,21 @@ def _data_init(n_inputs):
         got_s = [float(loc.id) for loc in out.locations]
         idx_ok = all(len(out._timesI[i]) == len(got_t) and len(out._leadtimesI[i]) == len(got_l) and len(out._locationsI[i]) == len(got_s)
                      for i in range(n_inputs))
+        # entry k of every input's index list points at the k-th verified coordinate in that input's own vector
+        if idx_ok:
+            for i in range(n_inputs):
+                own_t = [float(x) for x in inp.times[i]]
+                own_l = [float(x) for x in inp.leadtimes[i]]
+                own_s = [float(x) for x in inp.ids[i]]
+                idx_ok = idx_ok and all(own_t[int(p)] == got_t[k] for k, p in enumerate(out._timesI[i]))
+                idx_ok = idx_ok and all(own_l[int(p)] == got_l[k] for k, p in enumerate(out._leadtimesI[i]))
+                idx_ok = idx_ok and all(own_s[int(p)] == got_s[k] for k, p in enumerate(out._locationsI[i]))
         return [("times=intersection-and-t,d,tod-subsets,ascending,distinct", got_t == ts),
                 ("leadtimes=intersection-and-o-subset,ascending,distinct", got_l == ls),
                 ("locations=intersection-and-l,lx,latrange,lonrange,elevrange(inclusive),ascending,distinct", got_s == ids),
                 ("nothing-selected-must-stop-with-an-error-before-dates-are-applied", bool(ts0) and bool(ls) and bool(ids)),
-                ("index-lists-match-the-verified-dimensions", idx_ok)]
+                ("index-lists-match-the-verified-dimensions", idx_ok),
+                ("slice-caches-describe-the-verified-times-and-leadtimes", _axis_caches_ok(out))]
 
     def raises(S, inp, outcome):
         ts, ls, ids, ts0 = _init_spec(inp)
@@ -932,7 +1059,7 @@ def _data_init(n_inputs):
 
 for _n in (1, 2):
     s, c, p, r = _data_init(_n)
-    bounded_obligation("verif.data.Data.__init__#BOUNDED:N=%d" % _n, ("C03",), s, c, p, raises=r,
+    bounded_obligation("verif.data.Data.__init__#BOUNDED:N=%d" % _n, ("C03", "C02", "C11"), s, c, p, raises=r,
                        bound="%d input(s); times/leadtimes/location ids of length 2..3 from small grids; every subset of the options -t -d -tod -o -l -lx "
                              "-latrange -lonrange -elevrange with values from small grids incl. end points equal to a station's coordinate and values "
                              "matching nothing; seeded random sample of the product (count in evidence)" % _n,
@@ -943,13 +1070,16 @@ for _n in (1, 2):
 # Data.__init__: -latrange / -lonrange / -elevrange / -l / -lx resolved to station ids, for ALL coordinate values
 # (deductive in the coordinates and range end points incl. NaN and infinite coordinates; the number of stations is fixed)
 # ----------------------------------------------------------------------------------------------
-L_MENU = [None, [0.0], [1.0, 2.0], [2.0, 0.0, 7.0]]
-LX_MENU = [None, [1.0], [0.0, 2.0]]
+L_MENU = [None, [0.0], [1.0, 2.0], [2.0, 0.0, 7.0], []]          # an empty -l list selects nothing (it is not "option not given")
+LX_MENU = [None, [1.0], [0.0, 2.0], []]
 
 
 def _location_ranges(n_stations, menus=True):
     import verif.location
     L_MENU_, LX_MENU_ = (L_MENU, LX_MENU) if menus else ([None], [None])
+    if menus and n_stations >= 2:
+        # (smaller menus keep the number of paths below the budget)
+        L_MENU_, LX_MENU_ = [None, [0.0], [1.0, 0.0, 7.0], []], [None, [1.0], []]
 
     def setup(G):
         b = Bag(lat=[], lon=[], elev=[])
